@@ -290,5 +290,37 @@ def r5_identifier_values_compared_exactly(chk: Check) -> None:
             chk.ok("C18.R5", fn, construct, f"bound to {sorted(tgt_names)}, compared exactly", fn.loc(c))
 
 
+def r6_all_parameters_from_link(chk: Check) -> None:
+    chk.rule("C18.R6", "UNIVERSAL(every parameter came from a link): ensure_resource_availability accuses the API only for a request whose parameters ALL came from the link; the loop over `case.operation.iter_parameters()` clears the flag / leaves for EVERY parameter that is missing from the overrides - an extra conjunct that exempts a class of parameters (`parameter.is_required and ...`, a location test) lets a request with a GENERATED optional query / header value count as `all from the link`, and a correct 400 for that value is reported as `resource is not available after creation`", floor=1)
+    P = chk.project
+    fn = P.func("specs/openapi/checks.py:ensure_resource_availability")
+    loops = [l for l in walk_body(fn.node) if isinstance(l, ast.For) and "iter_parameters()" in unparse(l.iter)]
+    if not loops:
+        chk.undecided("C18.R6", fn, "loop over the operation's parameters", "not found", fn.loc())
+        return
+    n = 0
+    for l in loops:
+        pv = l.target.id if isinstance(l.target, ast.Name) else None
+        for i in (x for x in ast.walk(l) if isinstance(x, ast.If)):
+            t = unparse(i.test, 300)
+            if "overrides" not in t and "_override" not in t:
+                continue
+            n += 1
+            conj, negated = conjuncts_nnf(i.test)
+            member = [c for c in conj if isinstance(c, ast.Compare) and len(c.ops) == 1 and isinstance(c.ops[0], (ast.NotIn, ast.In))]
+            extra = [c for c in conj if c not in member]
+            construct = f"`if {t[:70]}` exempts no parameter"
+            if not member:
+                chk.undecided("C18.R6", fn, construct, "membership test not recognised", fn.loc(i))
+            elif extra and not negated:
+                chk.violation("C18.R6", fn, construct,
+                              f"besides the membership test the condition requires `{unparse(extra[0], 60)}`: parameters for which it is false are never looked at, so a case with a GENERATED value for such a parameter (an optional `limit`, a header) still counts as `all parameters come from the link` - a 4xx that answers the generated value is blamed on the created resource",
+                              fn.loc(i))
+            else:
+                chk.ok("C18.R6", fn, construct, "", fn.loc(i))
+    if n < 1:
+        chk.undecided("C18.R6", fn, "membership test against the overrides", "not found", fn.loc())
+
+
 def rules(tier: str) -> list:  # type: ignore[type-arg]
-    return [r1_own_response, r2_prefix_arguments, r3_accusation_guards, r4_history_lookups, r5_identifier_values_compared_exactly]
+    return [r1_own_response, r2_prefix_arguments, r3_accusation_guards, r4_history_lookups, r5_identifier_values_compared_exactly, r6_all_parameters_from_link]
